@@ -374,7 +374,14 @@ fn cmp_one(n: &Node, real: &CR, exp: &SR, cx: &mut CmpCtx) -> Result<(), (String
             // pass the filter can be cut in favour of buckets that do not: exact only for 1)
             let exact_single = cx.single_segment && subkey.is_none() && tmdc.unwrap_or(1) == 1
                 && !(matches!(order, TOrd::KeyAsc | TOrd::KeyDesc) && matches!(tfield, Fd::Ip | Fd::D | Fd::Fl));
-            if cx.may_truncate.contains(&n.name) && !exact_single {
+            // Ordered by `_key` the cut is invisible for ANY number of segments (each segment keeps its
+            // first / last `segment_size >= size` keys: C14_terms_key_{asc,desc}_exact_under_truncation,
+            // C14_terms_key_order_exact_any_schedule): buckets and sum_other_doc_count are compared exactly;
+            // only doc_count_error_upper_bound is an over-estimate.  Not below: another terms node (its own
+            // cut is only bounded).
+            let exact_key_multi = !cx.single_segment && matches!(order, TOrd::KeyAsc | TOrd::KeyDesc) && subkey.is_none()
+                && tmdc.unwrap_or(1) == 1 && !matches!(tfield, Fd::Ip | Fd::D | Fd::Fl) && !has_terms(&n.subs);
+            if cx.may_truncate.contains(&n.name) && !exact_single && !exact_key_multi {
                 // documented approximation: only the bounds are promised
                 let shown: u64 = buckets.iter().map(|b| b.1).sum();
                 let e = err.unwrap_or(0);
@@ -420,11 +427,17 @@ fn cmp_one(n: &Node, real: &CR, exp: &SR, cx: &mut CmpCtx) -> Result<(), (String
                         if err.unwrap_or(0) != *first_cut { return Err(here(format!("doc_count_error_upper_bound {err:?}, expected {first_cut} (count of the first bucket cut by segment_size {seg})"))); }
                     }
                 }
+            } else if cx.may_truncate.contains(&n.name) && exact_key_multi {
+                cx.notes.push("terms-truncated-key-order-exact".into());
             } else if err.unwrap_or(0) != 0 { return Err(here(format!("doc_count_error_upper_bound {err:?} although no segment truncated"))); }
             Ok(())
         }
         _ => Err(here(format!("result shape mismatch: {real:?}"))),
     }
+}
+
+fn has_terms(nodes: &[Node]) -> bool {
+    nodes.iter().any(|n| matches!(n.agg, Agg::Terms { .. }) || has_terms(&n.subs))
 }
 
 /// canonical order inside `_count` tie groups (by key), for comparing two real results
